@@ -14,8 +14,10 @@ from contextlib import contextmanager
 from . import fp as fpm
 from . import locks
 from . import mon
+from . import clock
 
 locks.install()
+clock.install()
 
 PREFIX = 'vx'                 # every grammar name used by the simulator starts with this
 REF_BUDGET = 150_000          # steps a reference operation may take before it is 'nontermination'
@@ -467,6 +469,10 @@ def run_op(env, ctx, op, path=()):
                 n = -1
             env.count('postprocess')
         return {'path': list(path), 'out': {'postprocessed': n}, 'fired': [], 'steps': 0, 'nested': []}
+    if kind == 'clock_jump':
+        clock.jump(float(op.get('seconds', 1.0)))
+        env.count('clock_jump')
+        return {'path': list(path), 'out': {'clock': op.get('seconds')}, 'fired': [], 'steps': 0, 'nested': []}
     if kind == 'gc':
         _collect(env)
         return {'path': list(path), 'out': {'gc': True}, 'fired': [], 'steps': 0, 'nested': []}
